@@ -2593,6 +2593,8 @@ class Frame:
             return [(p, Sym("new:" + ci.name, tuple(pos) + tuple(Sym("kw:" + k, (v,)) for k, v in sorted(kw.items()))))]
         r = ci.find_method("__init__")
         new = New(ci, {}, line)
+        # the constructor's own arguments (the class's public signature), for rules that read what was asked for
+        new.ctor = (tuple(pos), dict(kw))
         if r is None:
             return [(p, new)]
         owner, fn = r
